@@ -25,7 +25,7 @@ import (
 // the concrete universe behind ControlPlane_MC: a1/a2 are two instances of svc-a with the SAME
 // service id on different nodes, b1 is svc-b on a1's node and address.
 func cpInstances() []*verifx.FInst {
-	return []*verifx.FInst{
+	insts := []*verifx.FInst{
 		{ID: "a1", Node: "n1", NodeAddr: "10.0.1.1", ServiceID: "web", ServiceName: "svc-a", Addr: "", Port: 8001,
 			GoodTags: []string{"urlprefix-/a", "other"}, BadTags: []string{"urlprefix-/a weight=abc"}},
 		{ID: "a2", Node: "n2", NodeAddr: "10.0.2.1", ServiceID: "web", ServiceName: "svc-a", Addr: "10.0.2.7", Port: 8001,
@@ -33,6 +33,14 @@ func cpInstances() []*verifx.FInst {
 		{ID: "b1", Node: "n1", NodeAddr: "10.0.1.1", ServiceID: "api", ServiceName: "svc-b", Addr: "10.0.1.1", Port: 8002,
 			GoodTags: []string{"urlprefix-b.com/", "urlprefix-/b2 strip=/b2"}, BadTags: []string{"urlprefix-/b2 weight=1e999x"}},
 	}
+	if os.Getenv("VERIF_NAMING") == "dotted" {
+		// node names and service ids with dots (FQDN node names are common): "n1" + "x.web" and
+		// "n1.x" + "web" must stay two different instances
+		insts[0].ServiceID = "x.web"
+		insts[1].NodeName = "n1.x"
+		insts[2].ServiceID = "x.web.api"
+	}
+	return insts
 }
 
 var cpKV = map[string]string{
